@@ -36,6 +36,8 @@ def run(F, rep, tier):
     c05.start_rules(F, rep)
     import c12
     c12.import_pass(F, rep)
+    import c07
+    c07.visit_loops_complete(F, rep)
 
 
 def dependency_visit(F, rep):
